@@ -8,6 +8,8 @@ import PyamgV.Proofs.C06CRat
 import PyamgV.Driver.C06
 import PyamgV.Proofs.ExtC06Gmres
 import PyamgV.Model.ExtC06GmresExample
+import PyamgV.Proofs.ExtCGVecHh
+import PyamgV.Model.ExtCGExample
 import Mathlib.Analysis.Real.Sqrt
 
 /-! # C06 — Krylov solvers: status, residual history and callback tell the truth
@@ -201,5 +203,74 @@ example : (ExtC06.Ex.runM (9/2)).status = 0 ∧ (ExtC06.Ex.runM (9/2)).niter = 1
     (ExtC06.Ex.runF (9/2)).status = 0 ∧ (ExtC06.Ex.runF (9/2)).niter = 1 ∧ (ExtC06.Ex.runF (9/2)).hist = [5, 4] ∧
     (ExtC06.Ex.runF (9/2)).log = [#v[3/5, 0]] :=
   ExtC06.Ex.early_exit
+
+
+/-! ### extension E43 — the complex GMRES family
+
+`Model/ExtCGGmres.lean`: the engines `cmgsEng`, `chhEng`, `cfgEng` (complex inner iterations: conjugated inner products,
+`zlartg` rotations, complex `_mysign`; recorded estimate `np.abs(g[inner+1])`, explicitly computed residual norm
+`sqrt(real(<r, r>))`, both real) under the same control flow `gRun`; op `ext_cg_full` runs them on pairs of binary64
+numbers and the check compares status, every history entry, every callback iterate and `x` with the public functions on
+complex systems.  Theorems: over a field with an involution and an exact square root of its non-negative reals -- in
+particular the pairs `CP F` over an ordered field `F` with an exact square root -- the recorded estimate is the norm of
+the (preconditioned; `fgmres`: true) residual of the iterate handed to `callback` (a non-zero estimate certifies "no
+breakdown"), hence all C06 clauses `GTruthful` for a threshold `> 0` and `max_inner ≤ n`. -/
+
+/-- the rotated-basis invariant ⇒ `‖c − B x_k‖² = |g[k]|²` (any orthogonalisation) -/
+restate complex_gmres_estimate_is_residual_norm := PyamgV.ExtCG.rb_estimate
+/-- a non-zero new entry of `g` ⇒ the rotation was live and the previous entry was non-zero -/
+restate complex_gmres_nonzero_estimate_live_rotation := PyamgV.ExtCG.cgiv_live
+restate complex_gmres_mgs_estimate := PyamgV.ExtCG.cgmres_mgs_estimate
+restate complex_gmres_householder_estimate := PyamgV.ExtCG.cgmres_hh_estimate
+restate complex_fgmres_estimate := PyamgV.ExtCG.cfgmres_estimate
+/-- the estimates over pairs: `|g[m+1]| = ‖M (b − A x_{m+1})‖₂` with the modulus / norm of the pair model -/
+restate complex_gmres_mgs_pairs_estimate := PyamgV.ExtCG.cgmres_mgs_cp_estimate
+restate complex_gmres_householder_pairs_estimate := PyamgV.ExtCG.cgmres_hh_cp_estimate
+restate complex_fgmres_pairs_estimate := PyamgV.ExtCG.cfgmres_cp_estimate
+/-- the complete complex runs, module level -/
+restate complex_gmres_mgs_truthful := PyamgV.ExtCG.cgmres_mgs_run_truthful
+restate complex_gmres_householder_truthful := PyamgV.ExtCG.cgmres_hh_run_truthful
+restate complex_fgmres_truthful := PyamgV.ExtCG.cfgmres_run_truthful
+/-- … on `Vector K n` -/
+restate complex_gmres_mgs_vec_truthful := PyamgV.ExtCG.cgmres_mgs_vec_truthful
+restate complex_gmres_householder_vec_truthful := PyamgV.ExtCG.cgmres_hh_vec_truthful
+restate complex_fgmres_vec_truthful := PyamgV.ExtCG.cfgmres_vec_truthful
+/-- … and over pairs `(re, im)`: the engines `cgmresFullFloat` runs in binary64 (op `ext_cg_full`) -/
+restate complex_gmres_mgs_pairs_truthful := PyamgV.ExtCG.cgmres_mgs_cp_truthful
+restate complex_gmres_householder_pairs_truthful := PyamgV.ExtCG.cgmres_hh_cp_truthful
+restate complex_fgmres_pairs_truthful := PyamgV.ExtCG.cfgmres_cp_truthful
+
+/-- the hypotheses of the complete-run pair theorems are satisfiable: over `ℝ` with `Real.sqrt`, any complex `3 × 3`
+system, any positive threshold, restart 2 with 2 cycles -/
+example (A M : Vector (Vector (ExtCG.CP ℝ) 3) 3) (b x0 : Vector (ExtCG.CP ℝ) 3) :
+    ExtC06.GTruthful
+      (ExtC06.gRun (ExtCG.chhEng (C07.hopsVec ExtCG.CP.conj A M) ExtCG.CP.conj (ExtCG.CP.sqrtRe Real.sqrt)
+        (ExtCG.sgnCP Real.sqrt) ExtCG.nzK (ExtCG.CP.mod Real.sqrt) (fun z => Real.sqrt z.re) 3 b) ExtCG.ltF (fun a => a)
+        (1 / 2) (fun _ _ => false) ⟨2, 2⟩ x0) x0
+      (fun x => Real.sqrt (C07.vdot ExtCG.CP.conj (ExtCG.presV A M b x) (ExtCG.presV A M b x)).re)
+      (fun x => ExtCG.ltF (Real.sqrt (C07.vdot ExtCG.CP.conj (ExtCG.presV A M b x) (ExtCG.presV A M b x)).re) (1 / 2))
+      ⟨2, 2⟩ :=
+  PyamgV.ExtCG.cgmres_hh_cp_truthful Real.sqrt (fun _ h => Real.mul_self_sqrt h) A M b (1 / 2) (by norm_num) _ ⟨2, 2⟩
+    (by decide) (by decide) (by decide) x0
+/-- a concrete complex run of the three complete models evaluated by the kernel over `CP Rat` (`A = [[3i, 1], [4, 2i]]`,
+`b = (5, 0)`; all square roots rational): the recorded estimate `4` is the residual norm of the callback iterate
+`(−3i/5, 0)`; the cycle ends at the solution `(−i, 2)`, status `0` -/
+example : (ExtCG.Ex.runM (5/2)).status = 0 ∧ (ExtCG.Ex.runM (5/2)).niter = 2 ∧ (ExtCG.Ex.runM (5/2)).hist = [5, 4, 0] ∧
+    (ExtCG.Ex.runM (5/2)).log = [#v[⟨0, -3/5⟩, ⟨0, 0⟩], #v[⟨0, -1⟩, ⟨2, 0⟩]] ∧
+    (ExtCG.Ex.runM (5/2)).x = #v[⟨0, -1⟩, ⟨2, 0⟩] ∧
+    (ExtCG.Ex.runH (5/2)).status = 0 ∧ (ExtCG.Ex.runH (5/2)).hist = [5, 4, 0] ∧
+    (ExtCG.Ex.runH (5/2)).log = [#v[⟨0, -3/5⟩, ⟨0, 0⟩], #v[⟨0, -1⟩, ⟨2, 0⟩]] ∧
+    (ExtCG.Ex.runF (5/2)).status = 0 ∧ (ExtCG.Ex.runF (5/2)).hist = [5, 4, 0] ∧
+    (ExtCG.Ex.runF (5/2)).log = [#v[⟨0, -3/5⟩, ⟨0, 0⟩], #v[⟨0, -1⟩, ⟨2, 0⟩]] ∧
+    [ExtCG.Ex.resn₀ #v[⟨0, 0⟩, ⟨0, 0⟩], ExtCG.Ex.resn₀ #v[⟨0, -3/5⟩, ⟨0, 0⟩], ExtCG.Ex.resn₀ #v[⟨0, -1⟩, ⟨2, 0⟩]] =
+      [5, 4, 0] :=
+  ExtCG.Ex.full_cycle
+/-- early inner exit (complex), confirmed by the explicit residual -/
+example : (ExtCG.Ex.runM (9/2)).status = 0 ∧ (ExtCG.Ex.runM (9/2)).niter = 1 ∧ (ExtCG.Ex.runM (9/2)).hist = [5, 4] ∧
+    (ExtCG.Ex.runM (9/2)).log = [#v[⟨0, -3/5⟩, ⟨0, 0⟩]] ∧
+    (ExtCG.Ex.runH (9/2)).status = 0 ∧ (ExtCG.Ex.runH (9/2)).niter = 1 ∧ (ExtCG.Ex.runH (9/2)).hist = [5, 4] ∧
+    (ExtCG.Ex.runF (9/2)).status = 0 ∧ (ExtCG.Ex.runF (9/2)).niter = 1 ∧ (ExtCG.Ex.runF (9/2)).hist = [5, 4] ∧
+    (ExtCG.Ex.runF (9/2)).log = [#v[⟨0, -3/5⟩, ⟨0, 0⟩]] :=
+  ExtCG.Ex.early_exit
 
 end PyamgV.Props.C06
